@@ -10,7 +10,9 @@ Model of `metrique-writer/src/sink/background.rs` (BackgroundQueue) as a labelle
 * `pushed`    – producers between `force_push` and `unpark`; `sent` – flushers between `send` and `unpark`.
 * `shutdown`  – the `AtomicBool` stored by `BackgroundQueueJoinHandle::drop`; `join` – that handle's state.
 * `handles`   – number of live `BackgroundQueue` handles (`Arc::get_mut` succeeds iff it is 0).
-* `res`       – the scripted result of `stream.next` per entry; `noSubscriber` – no tracing subscriber installed.
+* `res`       – the scripted result of `stream.next` per entry; `noSubscriber` – no tracing subscriber is
+                installed *now* (`report_validation_error` asks `Dispatch::default()` on every report; the
+                environment may change it at any time: event `setSubscriber`).
 * `log`, `pushOrder`, `marks`, `shutMark`, `shutHit`, `overflow` – history (ghost) variables.
 
 Everything that depends on the wall clock is a bit of the `Clock` carried by the writer event `w c`,
@@ -86,6 +88,7 @@ inductive Ev where
   | dropJoinBegin           -- `shutdown_signal.store(true)`
   | dropJoinUnpark
   | dropJoinEnd             -- `handle.join()` returns
+  | setSubscriber (present : Bool)  -- the environment installs / removes a tracing subscriber
   | w (c : Clock)           -- one micro-step of the writer thread
   deriving DecidableEq, Repr
 
@@ -242,6 +245,7 @@ def step (s : QState) : Ev → Option QState
   | .dropJoinEnd =>
     if s.join = .joining ∧ s.wpc = .exited then some { s with join := .joined, log := s.log ++ [.joinReturned] }
     else none
+  | .setSubscriber present => some { s with noSubscriber := !present }
   | .w c => wstep s c
 
 def run (s : QState) : List Ev → Option QState
